@@ -134,4 +134,13 @@ theorem C12_tgen_reader_flusher_order :
     ord_flusher_l0_imm = "ascending" := by decide
 theorem C31_tgen_reader_flusher_order :
     ord_newiterator_mem_levels = "ascending" ∧ ord_flusher_l0_imm = "ascending" := by decide
+/-- C34: outside `newCommitTs`/`doneCommit` the commit watermark is only ever moved to a timestamp
+    that is already used up: `Open` marks `MaxVersion()` done before it increments the next timestamp,
+    `Load` marks `nextTxnTs - 1`. -/
+theorem C34_tgen_marks_below_next :
+    has_load_txnmark_prev = "yes" ∧ ord_open_marks_increment = "ascending" := by decide
+/-- C38: `valueLog.rewrite` decides under `filesLock` and deletes the file after releasing it
+    (no lock-order cycle `filesLock → file lock` against readers, which take `file lock → filesLock`). -/
+theorem C38_tgen_gc_lock_order :
+    has_rewrite_deferred_unlock = "no" ∧ ord_rewrite_unlock_delete = "ascending" := by decide
 end Badger
